@@ -525,3 +525,50 @@ def check_variable_universe(ctx: Ctx, oid: str):
                     srcs.add(ast.unparse(lp.ast.iter))
                 lp = lp.loop
     ctx.ob(oid, "R18 table", f, "the variable count ranges over the clauses and over the assumptions", {"clauses", "assumptions"} <= srcs, f"n_vars is the maximum over {sorted(srcs)}: a literal of a variable beyond it indexes the value / watch arrays out of range (IndexError instead of a verdict)", node=f.node)
+
+
+def _need(ctx: Ctx, oid: str, rule: str, f: Func, what: str, frags: list[str], detail: str = ""):
+    """obligation stated as a set of statement groups that must all be present in the (surface-normalised) function"""
+    t = ast.unparse(f.node)
+    missing = [fr.strip().split("\n")[0] for fr in frags if fr not in t]
+    ctx.ob(oid, rule, f, what, not missing, (f"not found: `{missing[0]}`" + (f" (+{len(missing) - 1})" if len(missing) > 1 else "") + (". " + detail if detail else "")) if missing else "", node=f.node)
+
+
+def check_bcp(ctx: Ctx, oid: str):
+    """Boolean constraint propagation (two watched literals + binary implication lists), obligation by obligation."""
+    p = ctx.func("sat", "solve_sat.propagate")
+    _need(ctx, oid, "R29 EXACTLY-ONCE", p, "every trail entry is taken from the propagation queue exactly once, and the literal it falsifies is derived from its current value", ["while prop_head < len(trail):\n        var = trail[prop_head]\n        prop_head += 1\n        false_lit = var if vals[var] == 0 else -var"])
+    _need(ctx, oid, "R1 STATUS-GUARD", p, "a binary implication asserts the implied literal with its clause as reason when it is unassigned, and reports that clause as conflict when it is false", ["for implied, clause_idx in big.implications(false_lit):\n            impl_var = lit_var(implied)\n            if vals[impl_var] == UNDEF:\n                assign(impl_var, implied > 0, clause_idx)\n            elif (vals[impl_var] == 1) != (implied > 0):\n                conflicts += 1\n                return clause_idx"])
+    _need(ctx, oid, "R16 PAIRED-EFFECTS", p, "the falsified watch is moved to position 1; a clause whose other watch is true keeps its watches", ["if clause[0] == false_lit:\n                clause[0], clause[1] = (clause[1], clause[0])", "first_val = lit_value(clause[0])\n            if first_val is True:\n                i += 1\n                continue"])
+    _need(ctx, oid, "R16 PAIRED-EFFECTS", p, "a non-false literal found among positions 2.. replaces the falsified watch: swapped into position 1, this watch entry removed, the new literal watched, and the scan stays at the same index", ["for k in range(2, len(clause)):\n                if lit_value(clause[k]) is not False:\n                    clause[1], clause[k] = (clause[k], clause[1])\n                    watches[i] = watches[-1]\n                    watches.pop()\n                    add_watch(clause[1], clause_idx)\n                    found = True\n                    break", "if found:\n                continue", "found = False"])
+    _need(ctx, oid, "R1 STATUS-GUARD", p, "with no replacement: the clause is a conflict if its first watch is false, otherwise that literal is asserted with the clause as reason", ["if first_val is False:\n                conflicts += 1\n                return clause_idx\n            else:\n                assign(lit_var(clause[0]), clause[0] > 0, clause_idx)\n            i += 1"])
+    _need(ctx, oid, "R1 STATUS-GUARD", p, "the scan visits every watch of the falsified literal; 'no conflict' is returned only after the queue ran empty", ["watches = watch_list(false_lit)\n        i = 0\n        while i < len(watches):\n            clause_idx = watches[i]\n            clause = get_clause(clause_idx)"])
+    rets = [ast.unparse(r.value) for r in own_nodes(p.node) if isinstance(r, ast.Return)]
+    cfg = cfg_of(p.node)
+    last = p.node.body[-1]
+    ctx.ob(oid, "R1 STATUS-GUARD", p, "-1 (no conflict) is returned once, as the last statement after the queue loop", rets.count("-1") == 1 and isinstance(last, ast.Return) and ast.unparse(last.value) == "-1", f"returns {rets}", node=last)
+    lv = ctx.func("sat", "solve_sat.lit_value")
+    _need(ctx, oid, "R18 table", lv, "lit_value: None for an unassigned variable, otherwise whether the literal's sign agrees with the value", ["v = vals[lit_var(lit)]", "if v == UNDEF:\n        return None", "return (v == 1) == (lit > 0)"])
+    for q, frags, what in (
+        ("solve_sat.watch_list", ["return watch_pos[lit] if lit > 0 else watch_neg[-lit]"], "watch_list selects the list of the literal's own polarity"),
+        ("solve_sat.add_watch", ["if lit > 0:\n        watch_pos[lit].append(idx)\n    else:\n        watch_neg[-lit].append(idx)"], "add_watch files the clause under the literal's own polarity"),
+        ("solve_sat.get_clause", ["return clauses[idx] if idx < len(clauses) else learned[idx - len(clauses)]"], "clause indices below len(clauses) are original clauses, the rest learned ones"),
+    ):
+        if ctx.repo.has_func("sat", q):
+            _need(ctx, oid, "R18 table", ctx.func("sat", q), what, frags)
+
+
+def check_analysis(ctx: Ctx, oid: str):
+    """First-UIP conflict analysis."""
+    a = ctx.func("sat", "solve_sat.analyze")
+    _need(ctx, oid, "R1 STATUS-GUARD", a, "a failed assumption or a conflict at level 0 yields no learned clause", ["if conflict_idx == -2:\n        return (None, -1, 0)", "current_level = len(trail_lim)\n    if current_level == 0:\n        return (None, -1, 0)"])
+    al = ctx.func("sat", "solve_sat.analyze.add_lit")
+    _need(ctx, oid, "R16 PAIRED-EFFECTS", al, "each variable enters the analysis once: current-level variables are counted, the others contribute their false literal to the learned clause", ["var = lit_var(lit)\n    if seen[var] or vals[var] == UNDEF:\n        return\n    seen[var] = True", "if levels[var] == current_level:\n        counter += 1\n    else:\n        learned_lits.append(lit_neg(lit) if (vals[var] == 1) == (lit > 0) else lit)"])
+    _need(ctx, oid, "R16 PAIRED-EFFECTS", a, "the trail is walked backwards over the seen variables; a current-level variable lowers the counter; at zero its negated assignment is the UIP literal, placed first; otherwise it is resolved with its reason clause", ["for lit in clause:\n        add_lit(lit)", "trail_idx = len(trail) - 1\n    while counter > 0:\n        while trail_idx >= 0 and (not seen[trail[trail_idx]]):\n            trail_idx -= 1\n        if trail_idx < 0:\n            break\n        var = trail[trail_idx]\n        trail_idx -= 1", "if levels[var] == current_level:\n            counter -= 1\n            if counter == 0:\n                uip_lit = var if vals[var] == 0 else -var\n                learned_lits.insert(0, uip_lit)\n                break\n            reason_idx = reasons[var]\n            if reason_idx >= 0:\n                for lit in get_clause(reason_idx):\n                    if lit_var(lit) != var:\n                        add_lit(lit)"])
+    _need(ctx, oid, "R18 table", a, "backjump level = second highest level of the learned clause (0 for a single level); LBD = number of levels", ["lvl_set = set((levels[lit_var(lit)] for lit in learned_lits if vals[lit_var(lit)] != UNDEF))", "lvls = sorted(lvl_set, reverse=True)\n    bt_level = lvls[1] if len(lvls) > 1 else 0\n    lbd = len(lvl_set)", "return (learned_lits, bt_level, lbd)", "if not learned_lits:\n        return (None, -1, 0)"])
+    f = ctx.func("sat", "solve_sat")
+    _need(ctx, oid, "R16 PAIRED-EFFECTS", f, "a decision opens a level, assigns the saved phase without a reason and propagates", ["decisions += 1\n        dec_level += 1\n        trail_lim.append(len(trail))\n        assign(var, phase[var], -1)\n        conflict = propagate()"])
+    lb = ctx.func("sat", "luby")
+    _need(ctx, oid, "R18 table", lb, "luby(i): 2^(k-1) when i = 2^k - 1, otherwise recurse on i - 2^(k-1) + 1", ["k = 1", "if i == (1 << k) - 1:\n            return 1 << k - 1", "if i < (1 << k) - 1:\n            i -= (1 << k - 1) - 1\n            k = 1\n        else:\n            k += 1"])
+    rd = ctx.func("sat", "solve_sat.reduce_db")
+    _need(ctx, oid, "R16 PAIRED-EFFECTS", rd, "database reduction renumbers the kept learned clauses: watches and binary implications of learned clauses are dropped and rebuilt for the kept ones", ["learned, lbd_scores = (keep, keep_lbd)", "watch_pos[v] = [c for c in watch_pos[v] if c < len(clauses)]", "watch_neg[v] = [c for c in watch_neg[v] if c < len(clauses)]", "big.clear_learned(len(clauses))", "idx = len(clauses) + i", "keep.append(clause)\n            keep_lbd.append(lbd_scores[orig_idx])"])
